@@ -4,6 +4,7 @@ import (
 	"fmt"
 	"go/ast"
 	"go/token"
+	"go/types"
 	"strings"
 )
 
@@ -27,6 +28,7 @@ func runC03(c *Ctx) {
 	if m == nil {
 		return
 	}
+	c03currentElement(c, m)
 	// (1) guarded-by
 	recv := map[string]map[string]string{"kgo.Client.produce": {"wait": "cl.producer.mu"}}
 	n := 0
@@ -518,4 +520,56 @@ func c03flush(c *Ctx, m *Module) {
 		c.Check(okGate, rule, lf.Key, lf.Pos(), m, "no linger starts while flushing or while a Produce is blocked", "a linger can start while flushing > 0 or blocked > 0 (Flush / a blocked Produce would wait for the linger)")
 	}
 	_ = fmt.Sprint
+}
+
+// c03currentElement: the promise worker finishes every record with the error
+// and the "failed before it was counted" flag of the ring element it is
+// currently processing (the variable dropPeek re-assigns), not with values
+// captured from the first element: a counted batch finished with beforeBuf of
+// an uncounted failure (or the reverse) corrupts the buffered counters.
+func c03currentElement(c *Ctx, m *Module) {
+	rule := "promise-flags-of-current-element"
+	f := c.NeedFunc(m, "kgo.producer.finishPromises")
+	if f == nil {
+		return
+	}
+	info := f.Info()
+	// the element variable: assigned from dropPeek
+	var elem types.Object
+	ast.Inspect(f.Decl.Body, func(x ast.Node) bool {
+		as, ok := x.(*ast.AssignStmt)
+		if !ok || len(as.Rhs) != 1 {
+			return true
+		}
+		if call, ok := as.Rhs[0].(*ast.CallExpr); ok && strings.HasSuffix(nosp(exprStr(call.Fun)), ".dropPeek") {
+			if id, ok := as.Lhs[0].(*ast.Ident); ok {
+				elem = info.Uses[id]
+			}
+		}
+		return true
+	})
+	if elem == nil {
+		c.Undecided(rule, f.Key+"#element", f.Pos(), m, "the variable re-assigned from dropPeek was not found")
+		return
+	}
+	n := 0
+	for _, call := range callsNamed(f.Decl.Body, info, "finishRecordPromise", false) {
+		n++
+		ok := len(call.Args) == 3
+		if ok {
+			for _, a := range call.Args[1:] {
+				sel, isSel := unparen(a).(*ast.SelectorExpr)
+				if !isSel {
+					ok = false
+					continue
+				}
+				id, isID := sel.X.(*ast.Ident)
+				if !isID || info.Uses[id] != elem {
+					ok = false
+				}
+			}
+		}
+		c.Check(ok, rule, f.Key+": finishRecordPromise(pr, elem.err, elem.beforeBuf)", call.Pos(), m, "", "finishRecordPromise is not given the err/beforeBuf fields of the element currently being drained (a value hoisted out of the loop is stale after dropPeek): a rejected TryProduce queued behind a real batch is finished as counted, bufferedRecords goes negative, the limits stop holding and Flush returns early")
+	}
+	c.Check(n == 1, rule, f.Key+"#call", f.Pos(), m, "", "finishRecordPromise call not found in finishPromises")
 }
